@@ -1047,6 +1047,66 @@ impl Brc20ProgDatabase {
     }
 }
 
+#[cfg(feature = "verif-hooks")]
+impl Brc20ProgDatabase {
+    /// Raw contents of every versioned table: (name, value column, persisted histories, in-memory histories).
+    pub fn verif_dump_tables(
+        &self,
+    ) -> Vec<(String, Vec<(Vec<u8>, Vec<u8>)>, Vec<(Vec<u8>, Vec<u8>)>, Vec<(Vec<u8>, Vec<u8>)>)> {
+        let mut out = Vec::new();
+        macro_rules! dump {
+            ($field:ident) => {
+                if let Some(t) = self.$field.as_ref() {
+                    let (db, cdb, cache) = t.verif_dump();
+                    out.push((t.verif_name().to_string(), db, cdb, cache));
+                }
+            };
+        }
+        dump!(db_account_memory);
+        dump!(db_code);
+        dump!(db_account);
+        dump!(db_number_and_index_to_tx_hash);
+        dump!(db_tx_receipt);
+        dump!(db_tx);
+        dump!(db_pending_txes);
+        dump!(db_pending_txes_op_return_tx_ids);
+        dump!(db_tx_trace);
+        dump!(db_inscription_id_to_tx_hash);
+        dump!(db_contract_address_to_inscription_id);
+        dump!(db_block_hash_to_number);
+        out
+    }
+
+    /// Raw contents of every block-keyed table: (name, column, in-memory cache).
+    pub fn verif_dump_block_tables(
+        &self,
+    ) -> Vec<(String, Vec<(Vec<u8>, Vec<u8>)>, Vec<(Vec<u8>, Vec<u8>)>)> {
+        let mut out = Vec::new();
+        macro_rules! dump {
+            ($field:ident) => {
+                if let Some(t) = self.$field.as_ref() {
+                    let (db, cache) = t.verif_dump();
+                    out.push((t.verif_name().to_string(), db, cache));
+                }
+            };
+        }
+        dump!(db_block_number_to_block);
+        dump!(db_block_number_to_raw_block);
+        dump!(db_block_number_to_hash);
+        out
+    }
+
+    /// The in-memory latest (height, hash) pair and the written-through maximum block number.
+    pub fn verif_heights(&self) -> (Option<(u64, B256)>, Option<String>) {
+        (
+            self.latest_block_number,
+            self.db_global_values
+                .as_ref()
+                .and_then(|g| g.get(MAX_BLOCK_NUMBER_KEY.to_string()).ok().flatten()),
+        )
+    }
+}
+
 #[derive(Debug)]
 pub struct DBError(Box<dyn Error>);
 
@@ -1107,6 +1167,8 @@ impl DatabaseTrait for Brc20ProgDatabase {
 
 impl DatabaseCommit for Brc20ProgDatabase {
     fn commit(&mut self, changes: HashMap<Address, Account, DefaultHashBuilder>) {
+        #[cfg(feature = "verif-hooks")]
+        crate::verif::event(format!("X dbcommit accounts={}", changes.len()));
         for (address, account) in changes {
             if !account.is_touched() {
                 continue;
